@@ -11,7 +11,7 @@ D5 inference chain: dispersion = deviance/(n - p) (families with dispersion) els
    standard errors = vsqrt(diag(covariance)); stored results come from the same fit (coef, deviance(y, mu), unpenalised information).
 D6 stride of the design-matrix accesses.
 Not decided: convergence to the MLE, link/variance tables of the non-Gaussian families beyond scale types, AIC/BIC constants."""
-from ..ir import tag, show, short, subterms
+from ..ir import tag, show, short, subterms, is_f64_method
 from ..elem import ElemEngine, show_expr, has_top, top_reasons, canon_comm, Env
 from ..sym import SymInfer, Ty, unit
 from ..idx import check_stride, IdxFunc, strip_casts
@@ -570,6 +570,100 @@ def run(prog, rep, tier, repo):
         one = any(d[0] == 'assign' and any(tag(z) == 'const' and z[2] == 1.0 for z in subterms(g.rvalue_term(d[3], d[1]))) for d in g._defs.get(0, []))
         (rep.ok if ok and one else rep.viol)('inference', key, 'dispersion = deviance/(n - p) if the family has a dispersion parameter else 1' if ok and one else
                                              'dispersion is not deviance/(n - p) under has_dispersion()', site_of(g.body))
+    # the user's settings reach fit unchanged: every GLM setter stores its argument itself (a copy of it), not a function of it.  fit's
+    # penalty alpha*beta and the stored information matrix X'WDX are on the scale of the weights as given; a setter that normalises them
+    # changes the effective penalty and the reported standard errors
+    nset = 0
+    for k_, b_ in sorted(pdb.bodies.items()):
+        if not (k_.startswith(G + '::set_') and b_.kind != 'closure'):
+            continue
+        fs_ = prog.func(k_)
+        if fs_ is None or fs_.body.arg_count != 2:
+            continue
+        rep.touch(k_)
+        nset += 1
+        me_s = ('arg', 1, fs_.names.get(1))
+        par = ('arg', 2, fs_.names.get(2))
+        key = 'setter-stores-argument:%s' % short(k_)
+        sts_ = [st for st in fs_.stores() if tag(st.target) == 'field' and st.target[1] == me_s]
+        verdict, detail = None, 'no store to a field of self found'
+        for st in sts_:
+            v = st.value
+            while True:
+                if tag(v) == 'agg' and v[1] == 'adt' and 'Option' in str(v[2]) and len(v[3]) == 1:
+                    v = v[3][0]
+                elif tag(v) == 'call' and v[2] and short(v[1]) in ('to_vec', 'to_owned', 'clone', 'into', 'from', 'to_vector', 'deref', 'as_slice', 'cloned', 'copied', 'collect', 'iter', 'into_iter') \
+                        and v[1] not in pdb.bodies:
+                    v = v[2][0]
+                else:
+                    break
+            def maps_elements(t):
+                # an iterator adaptor whose closure returns something other than its own argument
+                for z in subterms(t):
+                    if tag(z) == 'agg' and z[1] == 'closure':
+                        h_ = prog.func(z[2])
+                        rv_ = h_.return_values() if h_ is not None else []
+                        a2 = ('arg', 2, h_.names.get(2)) if h_ is not None else None
+                        if not (len(rv_) == 1 and (rv_[0] == a2 or (tag(rv_[0]) == 'deref' and rv_[0][1] == a2))):
+                            return True
+                return False
+            if v == par:
+                verdict, detail = (True if verdict is None else verdict), 'self.%s = %s (copied)' % (st.target[2], show(par))
+            elif par in subterms(v) and maps_elements(v):
+                verdict, detail = False, 'stores %s, its argument mapped element by element, instead of the argument' % show(st.value)[:90]
+                break
+            elif par in subterms(v) and any((tag(z) == 'bin' and len(z) > 4 and z[4] == 'f64') or (tag(z) == 'call' and z[1] in pdb.bodies) or
+                                            (tag(z) == 'call' and is_f64_method(z[1])) for z in subterms(v)):
+                verdict, detail = False, 'stores %s, a function of its argument, instead of the argument' % show(st.value)[:90]
+                break
+            else:
+                verdict, detail = None, 'stored value %s not read' % show(st.value)[:60]
+                break
+        if verdict is True:
+            rep.ok('setter-stores-argument', key, detail)
+        elif verdict is False:
+            rep.viol('setter-stores-argument', key, '%s %s: fit and the inference chain then work with settings the user did not give' % (short(k_), detail), site_of(fs_.body))
+        else:
+            rep.undecided('setter-stores-argument', key, detail, site_of(fs_.body), proof=False)
+    rep.floor('setter-stores-argument', 5, 'set_penalty, set_tolerance, set_coef, set_weights, set_offset')
+
+    # which families carry a free dispersion: the one-parameter laws (Bernoulli, Poisson, Exponential) have dispersion 1 by definition, so
+    # their standard errors must not be scaled by deviance/(n-p); the others estimate it.  Read per variant from the value has_dispersion
+    # returns on the paths its discriminant admits (explicit arms, or-patterns and wildcards alike)
+    WANT = {'Gaussian': True, 'Gamma': True, 'QuasiPoisson': True, 'Bernoulli': False, 'Poisson': False, 'Exponential': False}
+    hd = prog.func(FAM + '::has_dispersion')
+    if hd is not None and FAM in pdb.adts:
+        from ..precond import Frame, NC
+        ncx_ = NC(prog)
+        rep.touch(hd.body.key)
+        vnames = [v_['name'].split('::')[-1] for v_ in pdb.adts[FAM]['variants']]
+        me3 = ('arg', 1, hd.names.get(1))
+        for vi, vn in enumerate(vnames):
+            key = 'dispersion-table:%s' % vn
+            ctx = Frame(hd, env={('discr', ('arg', 1, None)): vi})
+            outs = set()
+            unread = False
+            live_blocks = ncx_.reachable(hd, ctx)
+            for d in hd._defs.get(0, []):
+                if d[1] not in live_blocks:
+                    continue
+                v = hd.rvalue_term(d[3], d[1]) if d[0] == 'assign' else None
+                if v is not None and tag(v) == 'const' and isinstance(v[2], bool):
+                    outs.add(v[2])
+                else:
+                    unread = True
+            if vn not in WANT:
+                rep.info('dispersion-table', key, 'variant not in the reference table: has_dispersion = %s' % sorted(outs))
+            elif unread or len(outs) != 1:
+                rep.undecided('dispersion-table', key, 'value returned for this variant not read as one constant (%s)' % sorted(outs), site_of(hd.body), proof=False)
+            elif outs == {WANT[vn]}:
+                rep.ok('dispersion-table', key, 'has_dispersion(%s) = %s' % (vn, WANT[vn]))
+            else:
+                rep.viol('dispersion-table', key, 'has_dispersion(%s) is %s: %s' % (vn, sorted(outs)[0], (
+                    'the %s law has dispersion 1 by definition, yet dispersion() now returns deviance/(n-p) and every standard error is scaled by its square root' % vn
+                    if not WANT[vn] else 'the %s family estimates its dispersion, yet dispersion() now returns 1 and the standard errors ignore the residual scale' % vn)),
+                    site_of(hd.body))
+    rep.floor('dispersion-table', 6, 'family variants')
     g = prog.func(G + '::coef_covariance_matrix')
     key = 'inference:covariance'
     if g is not None:
